@@ -37,6 +37,7 @@ STRUCT_FAULTS = [
     ("except-without-open-block", "\n% except KeyError:\nx\n", 1, "line"),
     ("elif-after-endif", "\n% if x:\n% endif\n% elif y:\n", 18, "line"),
     ("closing-tag-for-namespace-call-mismatch", "<%a:b>x</%a:c>", 7, "linecol"),
+    ("unclosed-text-tag", "<%text>\nfoo\n\n", 0, "line"),
 ]
 
 
@@ -61,6 +62,14 @@ COMPILE_FAULTS = [(n_, t_, (t_.rindex(m_) if m_ else 0), w_) for n_, t_, m_, w_ 
     ("elif-continuation-line-fault", "\n% if a:\n% elif y and \\\n   z +* 2:\nx\n% endif\n", "z +*", "line"),
     ("for-continuation-line-fault", "\n% for i in \\\n   [1, +* 2]:\nx\n% endfor\n", "[1, +*", "line"),
     ("except-continuation-line-fault", "\n% try:\nx\n% except (A, \\\n   B +* 2):\ny\n% endtry\n", "B +*", "line"),
+    # faults that only the compilation of the generated module sees
+    ("return-in-module-block", "<%!\n  return 1\n%>\n", "return 1", "line"),
+    ("control-block-closed-inside-a-def", "\n% if x:\n<%def name=\"a()\">\n% endif\n</%def>\n", "% if", "any"),
+    ("control-block-opened-inside-a-def", "\n<%def name=\"a()\">\n% if x:\n</%def>\n% endif\n", "% if", "any"),
+    ("break-outside-loop", "<%\n  x = 1\n  break\n%>\n", "break", "line"),
+    # a tag that is never closed: the line where the tag begins
+    ("unclosed-tag", "<%def name=\"a()\">\nfoo\n\n", "<%def", "line"),
+    ("unclosed-nested-tag", "<%def name=\"a()\">\n <%call expr=\"b()\">\nfoo\n\n\n", "<%call", "line"),
     # a clause keyword that does not belong to the open block
     ("else-inside-with", "\n% with a as b:\n% else:\nx\n% endwith\n", "% else", "line"),
     ("finally-inside-if", "\n% if a:\n% finally:\nx\n% endif\n", "% finally", "line"),
@@ -224,7 +233,9 @@ def on_struct(fault):
             return
         line, col = pos_terms(s.items, n + off)
         acc.vcs += 1
-        formula = (e.lineno == line) if what == "line" else z3.And(e.lineno == line, e.pos == col)
+        # 'any': several lines could be blamed (e.g. the % if or the % endif of a control block that straddles a tag);
+        # what is asserted is a Mako exception carrying the template's name and source, with a line inside the template
+        formula = z3.BoolVal(True) if what == "any" else ((e.lineno == line) if what == "line" else z3.And(e.lineno == line, e.pos == col))
         if isinstance(e.lineno, SymInt) or isinstance(e.pos, SymInt):
             raise core.ProxyLeak("symbolic position in a structural fault")
         st, mod = p.vc(formula)
@@ -350,6 +361,17 @@ def h_ctl(kw, npre):
 
     def h(p):
         PT.ast = AST
+        # PythonFragment looks for the trailing comment with the tokenizer (C code): hand it the concrete text of the line
+        if not getattr(AST.PythonFragment, "_sx_strip", False):
+            orig_strip = AST.PythonFragment._strip_comment
+
+            def strip(code):
+                c = values.lower(code)
+                if not isinstance(c, str):
+                    raise core.ProxyLeak("tokenizer on a symbolic control line")
+                return orig_strip(c)
+            AST.PythonFragment._strip_comment = staticmethod(strip)
+            AST.PythonFragment._sx_strip = True
         r_rel = values.new_int("r", 1, 2)
         seen = {}
 
@@ -470,6 +492,8 @@ sys.exit(1 if bad else 0)
 
 
 def classify(c):
+    if (c.get("input") or {}).get("fault") in ("unclosed-tag", "unclosed-nested-tag") and c["kind"] == "wrong-position":
+        return "C11-unclosed-tag-reported-at-end-of-template"
     return None
 
 
